@@ -22,6 +22,7 @@ type execChain struct {
 	root    common.Hash
 	height  uint64
 	groupID []byte
+	last    *account.AccountDB // the state object the last block was executed on
 }
 
 func newExecChain(n *node.Node) *execChain {
@@ -51,6 +52,7 @@ func (c *execChain) execBlock(height uint64, txs []*types.Transaction, commit bo
 		CurTime: node.EpochTime.Add(time.Duration(height) * time.Second), RequestIds: map[string]uint64{}}
 	hdr.Hash = hdr.GenHash()
 	root, evicted, executed, receipts := core.SimExecuteBlock(st, &types.Block{Header: hdr, Transactions: cp}, "fullverify")
+	c.last = st
 	if commit {
 		r2, err := st.Commit(true)
 		if err == nil {
